@@ -66,8 +66,9 @@ Qed.
    release character does not end with CR) and all logical segments with segx_ok (shape: >= 1 element, >= 1 repetition, >= 1
    component, exactly one where the delimiter is absent; data arbitrary bytes when there is a
    release character, otherwise free of delimiter first bytes; name non-empty; the CR/LF rules:
-   a CR before the delimiter / blank lines only where the rules eat them, the encoded segment
-   not ending in CR when LF delimits, a name with a non-CR/LF byte when the delimiter is CR/LF
+   a CR before the delimiter / blank lines only where the rules eat them, when LF delimits, the
+   last value not ending in CR and, if it is empty, the delimiter before it not ending in CR
+   (no_cr_end: a condition on the logical values; edi_roundtrip_enc states it on the encoding), a name with a non-CR/LF byte when the delimiter is CR/LF
    only), and for every input that -- after ignore_crlf stripping, if configured -- is the
    encoding of those segments: NonValidatingReader delivers exactly the logical
    (ElemIndex, CompIndex, escaped data) of every segment, in order, then EOF; and unescaping
@@ -97,6 +98,25 @@ Theorem edi_full_roundtrip : forall c, cfg_ok c -> forall segs inp sname decls,
   (if c_ignore_crlf c then strip_crlf inp else inp) = edi_encode c segs ->
   full_read_all c sname decls inp = Ok (exp_full decls (map ls_seg segs)).
 Proof. exact full_roundtrip. Qed.
+
+(* The same with the CR condition stated on the encoding (has_suffix (enc_seg c s) [CR] = false
+   instead of no_cr_end): the more general form the two theorems above are derived from. *)
+Theorem segx_ok_enc_of : forall c, cfg_ok c -> forall x, segx_ok c x -> segx_ok_enc c x.
+Proof. exact segx_ok_enc_of. Qed.
+
+Theorem edi_roundtrip_enc : forall c, cfg_ok c -> forall segs inp,
+  Forall (segx_ok_enc c) segs ->
+  (if c_ignore_crlf c then strip_crlf inp else inp) = edi_encode c segs ->
+  nv_read_all c inp = Ok (map (fun x => exp_seg c (ls_seg x)) segs).
+Proof. exact roundtrip_enc. Qed.
+
+Theorem edi_full_roundtrip_enc : forall c, cfg_ok c -> forall segs inp sname decls,
+  Forall (segx_ok_enc c) segs ->
+  (forall x, In x segs ->
+     escape (heads (specials c)) (optb (c_rel c)) (seg_name (ls_seg x)) = sname) ->
+  (if c_ignore_crlf c then strip_crlf inp else inp) = edi_encode c segs ->
+  full_read_all c sname decls inp = Ok (exp_full decls (map ls_seg segs)).
+Proof. exact full_roundtrip_enc. Qed.
 
 (* The first version of these theorems (first bytes ASCII, byte-wise encoder) as corollaries. *)
 Theorem cfg_ok_ascii_ok : forall c, cfg_ok_ascii c -> cfg_ok c.
@@ -173,9 +193,16 @@ Proof.
   intros [u Hu]. destruct u as [|a [|b u]]; cbn in Hu; discriminate.
 Qed.
 
+Ltac solve_no_cr :=
+  unfold no_cr_end; split;
+  [ let Hc := fresh in intro Hc; apply has_suffix_cr in Hc; vm_compute in Hc; discriminate
+  | let Hn := fresh in intro Hn; vm_compute in Hn; try discriminate;
+    let Hc := fresh in intro Hc; apply has_suffix_cr in Hc; vm_compute in Hc; discriminate ].
+
 Ltac solve_segx_ok :=
   unfold segx_ok, elem_ok, rep_ok, data_ok; cbn;
   repeat match goal with
+         | |- no_cr_end _ _ => solve_no_cr
          | |- _ /\ _ => split
          | |- _ <> _ => discriminate
          | |- Forall _ _ => constructor
@@ -225,7 +252,8 @@ Example edi_roundtrip_ex :
 Proof. split; vm_compute; reflexivity. Qed.
 
 (* CRLF input with LF delimiter, preceded by a blank "\r\n" line and a blank "\n" line *)
-Definition seg_lf : lsegx := mkLS [true; false] [ [[hx "41"]]; [[hx "0d0a78"]] ] true.
+(* ... and an empty last element: the element delimiter "*" before it does not end with CR *)
+Definition seg_lf : lsegx := mkLS [true; false] [ [[hx "41"]]; [[hx "0d0a78"]]; [[ [] ]] ] true.
 
 Example segx_ok_lf : segx_ok c_lf seg_lf.
 Proof.
@@ -234,9 +262,9 @@ Proof.
 Qed.
 
 Example edi_roundtrip_lf :
-  edi_encode c_lf [seg_lf] = hx "0d0a0a412a0d3f0a780d0a" /\
+  edi_encode c_lf [seg_lf] = hx "0d0a0a412a0d3f0a782a0d0a" /\
   nv_read_all c_lf (edi_encode c_lf [seg_lf]) =
-    Ok [SegOk (hx "41") [mkRE 0 1 (hx "41"); mkRE 1 1 (hx "0d3f0a78")]].
+    Ok [SegOk (hx "41") [mkRE 0 1 (hx "41"); mkRE 1 1 (hx "0d3f0a78"); mkRE 2 1 []]].
 Proof. split; vm_compute; reflexivity. Qed.
 
 (* declarations: index 1 twice (same raw element), component 2, a missing element with default,
